@@ -13,13 +13,14 @@ import argparse, json, os, re, subprocess, sys, time
 REPO = os.environ.get("MUT_REPO", "/tmp/mut/repo")
 VERIF = os.environ.get("MUT_VERIF", "/tmp/mut/verif")
 OUT = os.environ.get("MUT_OUT", "/verif/tools/mutscan_results.jsonl")
-FILES = ["state.rs", "lib.rs", "delta.rs", "failure_detector.rs", "listener.rs", "server.rs", "serialize.rs", "message.rs", "digest.rs", "types.rs"]
+FILES = ["state.rs", "lib.rs", "delta.rs", "failure_detector.rs", "listener.rs", "server.rs", "serialize.rs", "message.rs", "digest.rs", "types.rs", "transport/udp.rs"]
 ORDER = ["C14", "C02", "C06", "C04", "C20", "C05", "C03", "C07", "C01", "C08", "C12", "C13", "C10", "C11", "C15", "C16", "C17", "C18", "C19", "C09"]
 # which checks to try first, per file
 FIRST = {
     "failure_detector.rs": ["C10", "C11", "C12", "C13", "C01"],
     "listener.rs": ["C15"],
     "server.rs": ["C17", "C19", "C01"],
+    "transport/udp.rs": ["C19", "C08"],
     "serialize.rs": ["C08", "C07", "C09"],
     "message.rs": ["C08", "C09", "C16"],
     "digest.rs": ["C08"],
